@@ -661,6 +661,14 @@ loop:
 				switch fr.Type() {
 				case FrameSettings:
 					st := fr.Body().(*Settings)
+
+					// Resizing the encoder here rather than on the read loop keeps
+					// it with the goroutine that encodes: the read loop used to do
+					// it while a response header block was being written.
+					if st.hasTableSize {
+						sc.enc.SetMaxTableSize(st.tableSize)
+					}
+
 					if st.hasWindowSize {
 						delta := int64(int32(st.windowSize)) - int64(curInitialWindow)
 						curInitialWindow = int32(st.windowSize)
@@ -1779,7 +1787,9 @@ func (sc *serverConn) handleSettings(in *FrameHeader) {
 	// a 4096 octet table again with its next SETTINGS frame. The payload has
 	// been validated by Deserialize already.
 	_ = sc.clientS.Read(in.payload)
-	sc.enc.SetMaxTableSize(sc.clientS.HeaderTableSize())
+
+	// The encoder is the stream loop's: the frame is forwarded to it and the
+	// table size is applied there, between two header blocks.
 
 	// The per-stream send windows are adjusted in handleStreams, where the
 	// stream table lives. The connection-level window is not affected by
